@@ -431,12 +431,16 @@ impl World {
     /// the server's own timer tasks run; does not settle.
     pub fn advance(&mut self, secs: u64) {
         for _ in 0..secs {
+            // the server's own timer tasks may panic when their connection is gone
+            // (tokio catches that); keep it off stderr
+            set_quiet_panics(true);
             self.rt.block_on(async {
                 tokio::time::advance(std::time::Duration::from_secs(1)).await;
                 for _ in 0..4 {
                     tokio::task::yield_now().await;
                 }
             });
+            set_quiet_panics(false);
             self.now += 1;
         }
     }
